@@ -1,29 +1,30 @@
 #!/usr/bin/env python3
 """Regenerates MANIFEST.json from the table below (one place to keep claims and not_applicable current)."""
-import json, os, subprocess
+import json, os, re, subprocess
 HERE = os.path.dirname(os.path.dirname(os.path.abspath(__file__)))
 
-CLAIMED = {
- "C26": dict(text="TLC proves the store contract (map + control record) for every operation history up to the bound on the "
-             "TLA+ contract model, exports its complete (state, operation) transition cover, and every exported history is "
-             "replayed on the real MemoryPersister and FilePersister; TLC then validates each recorded execution against "
-             "the contract (trace validation), so every return value of every call is judged.",
-             note="Trusts TLC, the probe (moves data only), the bytes->id mapping, ASan/UBSan. Keys 0..3 exhaustively, wider keys seeded.",
-             tech="TLA+ contract spec + TLC exhaustive check; transition-cover replay on the real persisters; TLC trace validation",
-             ref="5.9, 6 C26"),
- "C27": dict(text="TLC checks the syscall-grain file-store design (FileStore.tla) under a crash between any two system calls "
-             "for all store sequences up to the bound, and shows that each named deviation breaks an invariant. Every store "
-             "sequence TLC explores is executed on the real FilePersister with write/lseek interposed; every system-call "
-             "boundary is materialised as a disk image, reopened with a fresh FilePersister and interrogated; TLC validates "
-             "each recorded execution against the C27 monitor.",
-             note="Crash model of the property statement (between completed system calls, no torn writes). Trusts TLC, the syscall seam, ASan/UBSan.",
-             tech="TLA+ crash-consistency design spec + TLC; exhaustive crash-point enumeration on the real code via syscall seam; TLC trace validation",
-             ref="5.9, 6 C27"),
-}
+import importlib, sys
+sys.path.insert(0, os.path.join(HERE, "lib"))
+
+
+def claimed():
+    """Every lib/props/cNN.py that defines MANIFEST = dict(text, note, tech, ref) is a claimed check."""
+    out = {}
+    for f in sorted(os.listdir(os.path.join(HERE, "lib", "props"))):
+        m = re.fullmatch(r"(c\d+)\.py", f)
+        if not m:
+            continue
+        mod = importlib.import_module("props." + m.group(1))
+        if getattr(mod, "MANIFEST", None):
+            out[m.group(1).upper()] = mod.MANIFEST
+    return out
+
 
 PENDING = "check not built yet in this round; planned with the TLA+ machinery described in DESIGN.md section 6"
 
 def main():
+    CLAIMED = claimed()
+    na = json.load(open(os.path.join(HERE, "not_applicable.json")))
     props = [json.loads(l) for l in open(os.path.join(HERE, "properties.jsonl"))]
     try:
         commits = subprocess.run(["git", "-C", "/repo", "log", "--format=%h %s", "--grep=^verif-hook"], capture_output=True, text=True).stdout.split("\n")
@@ -54,7 +55,7 @@ def main():
                                 "level_claimed": {"category": "model_checking", "text": c["text"], "design_ref": "DESIGN.md " + c["ref"]},
                                 "level_note": c["note"], "technique": c["tech"]})
         else:
-            m["not_applicable"].append({"property_id": pid, "reason": PENDING})
+            m["not_applicable"].append({"property_id": pid, "reason": na.get(pid, PENDING)})
     with open(os.path.join(HERE, "MANIFEST.json"), "w") as fh:
         json.dump(m, fh, indent=1)
     print("claimed", len(m["checks"]), "not_applicable", len(m["not_applicable"]))
